@@ -236,7 +236,13 @@ fn run<K: Kern<D>, const D: usize>(case: &Case, log: &mut CaseLog) {
                                 .fact("dim", D as u64)
                                 .fact("cause", cause)
                                 .fact("convex", convex)
-                                .fact("config", name.clone()),
+                                .fact("config", name.clone())
+                                // is the shuffled-retry driver (the only global verifier of a bulk build) in play?
+                                .fact("retry_active", name.split("retry").nth(1).and_then(|t| t.chars().next()).and_then(|c| c.to_digit(10)).map_or(false, |r| match r % 6 {
+                                    0 => false,
+                                    1..=3 => true,
+                                    _ => cfg!(debug_assertions),
+                                })),
                         );
                     }
                 }
